@@ -773,8 +773,22 @@ fn run_program(prog: &[Value], frames: &[FrameInfo], mode: u8, chunk: usize) -> 
         if exact {
             let exp_ret = exp["ret"].as_array().unwrap();
             let is_err = |v: &Vec<Value>| v.first().map(|x| x == "err").unwrap_or(false);
+            let mut early_or_late: Option<String> = None;
             if is_err(&ret) != is_err(exp_ret) && op != "CollectTo" {
-                viol.push(format!("returned {:?} where the specification has {:?}", ret, exp_ret));
+                // Which call of a schedule meets a cut or an invalid block depends on how much one call decodes (as-built
+                // budgets).  An error is wrong when nothing justifies it (the frame is valid and the source holds all of it);
+                // a success is wrong when the call itself must fail (the header cannot be read, the window is above the
+                // limit, the dictionary is unknown).  Everything else -- the failure shows up one call earlier or later than
+                // in the as-built model -- is drift; whether an invalid or truncated frame ever ends "finished" is judged
+                // after every call and when the frame is completed.
+                let cls = exp_ret.get(1).and_then(|x| x.as_str()).unwrap_or("");
+                let whole_valid = ex.started && frames[ex.fi].valid && ex.cutv >= frames[ex.fi].len;
+                let must_fail_here = is_err(exp_ret) && (op == "Reset" || ["window", "dict", "hdr"].contains(&cls));
+                if must_fail_here || (is_err(&ret) && (whole_valid || op == "Reset")) {
+                    viol.push(format!("returned {:?} where the specification has {:?}", ret, exp_ret));
+                } else {
+                    early_or_late = Some(format!("returned {:?}, as-built model {:?} (a failure that is due on this source shows up in a different call)", ret, exp_ret));
+                }
             }
             // collect_to_writer: whether the sink's failing answer is reached depends on how many write calls the drain makes
             // (one per physical segment of the ring: as-built layout).  What the property fixes is checked where the call is
@@ -782,7 +796,9 @@ fn run_program(prog: &[Value], frames: &[FrameInfo], mode: u8, chunk: usize) -> 
             if viol.is_empty() {
                 // exact comparison with the as-built model: differences are drift, not violations
                 let mut diffs = vec![];
-                if &ret != exp_ret {
+                if let Some(d) = early_or_late {
+                    diffs.push(d);
+                } else if &ret != exp_ret {
                     diffs.push(format!("returned {:?}, as-built model {:?}", ret, exp_ret));
                 }
                 let st = exp["st"].as_str().unwrap();
